@@ -32,3 +32,77 @@ Theorem C10_leaf_depth :
     match l with LSep => Ok (Inv 0) | LTree _ => Ok (Var Unbounded) | _ => Ok (Inv 1) end.
 Proof. exact depth_single_leaf. Qed.
 Print Assumptions C10_leaf_depth.
+
+From WaxModel Require Import Rule Parse Query Glob.
+From WaxProofs Require Import SpecFacts ExhaustFacts PruneFacts DepthTreeFacts DepthAltFacts BuiltDepth.
+
+(* flat patterns that contain tree wildcards (`src/**/*.rs`, `**/a/*`, `/usr/**`): the reported depth has no upper bound and its
+   lower bound is at most the number of components of every canonical path of the documented language; the conjunction fold
+   keeps the lower bound below the number of maximal runs of non-boundary leaves, and every run is a component of every match *)
+Theorem C10_flat_with_tree_wildcards_sound : forall orbit sp ts v p l0 rest,
+  forallb is_leaf ts = true -> adjacent_boundary ts = None -> existsb tree_tok ts = true ->
+  map leaf_of ts = l0 :: rest ->
+  depth_variance (TCat sp ts) = Ok v -> Lang orbit (TCat sp ts) p ->
+  canonical p = true -> 1 <= ncomp p -> starts_sep p = leaf_is_rooting l0 ->
+  in_variance (ncomp p) v.
+Proof. exact depth_flat_tree_sound. Qed.
+Print Assumptions C10_flat_with_tree_wildcards_sound.
+
+(* every flat glob that builds, with or without tree wildcards: the side conditions (no adjacent boundaries, separator-free
+   literals) are discharged by the rule checker and the parser *)
+Theorem C10_built_flat_globs_sound : forall (orbit : char -> list char), (forall c d, In d (orbit c) -> d <> SEP) ->
+  forall e sp ts r v p l0 rest,
+  build e = BuildOk (TCat sp ts) r -> forallb is_leaf ts = true -> map leaf_of ts = l0 :: rest ->
+  depth_variance (TCat sp ts) = Ok v -> Lang orbit (TCat sp ts) p ->
+  canonical p = true -> 1 <= ncomp p -> starts_sep p = leaf_is_rooting l0 ->
+  in_variance (ncomp p) v.
+Proof. exact built_flat_depth_sound. Qed.
+Print Assumptions C10_built_flat_globs_sound.
+
+(* patterns without repetitions - alternations, concatenations, leaves and tree wildcards at any nesting (`*.{rs,toml}`,
+   `{src,tests}/**/*.rs`, `**/{a,b}/*`): a term of the depth algebra is a sound summary of a flat leaf sequence, summaries compose
+   under conjunction whatever the grouping (the algebra is not associative), every expansion is summarised by a member of the
+   tree's term, and the final disjunction covers its finalized members.  The path is matched through an expansion in which no
+   two boundaries are adjacent and which begins with a root exactly when the path does; the known class closed_variant_finalize
+   is excluded by its predicate *)
+Theorem C10_patterns_without_repetitions_sound : forall (orbit : char -> list char), (forall c d, In d (orbit c) -> d <> SEP) ->
+  forall t v p x,
+  nonempty_branches t = true -> rep_free t = true -> lits_nosep t = true ->
+  depth_variance t = Ok v -> depth_closed_variant t = false ->
+  Expands t x -> FlatMatch orbit true true x p -> chain_ok false x = true ->
+  canonical p = true -> 1 <= ncomp p ->
+  starts_sep p = (match x with a :: _ => leaf_is_rooting a | [] => false end) ->
+  in_variance (ncomp p) v.
+Proof. exact depth_alt_sound. Qed.
+Print Assumptions C10_patterns_without_repetitions_sound.
+
+Theorem C10_built_globs_without_repetitions_sound : forall (orbit : char -> list char), (forall c d, In d (orbit c) -> d <> SEP) ->
+  forall e t r v p x,
+  build e = BuildOk t r -> rep_free t = true ->
+  depth_variance t = Ok v -> depth_closed_variant t = false ->
+  Expands t x -> FlatMatch orbit true true x p -> chain_ok false x = true ->
+  canonical p = true -> 1 <= ncomp p ->
+  starts_sep p = (match x with a :: _ => leaf_is_rooting a | [] => false end) ->
+  in_variance (ncomp p) v.
+Proof. exact built_alt_depth_sound. Qed.
+Print Assumptions C10_built_globs_without_repetitions_sound.
+
+(* the algebra itself: the conjunction of two sound summaries is a sound summary of the concatenation, and a disjunction
+   contains whatever its operands contain *)
+Theorem C10_summaries_compose : forall s1 s2 s x1 x2, K s1 x1 -> K s2 x2 -> lb x1 && fb x2 = false -> sterm_conj s1 s2 = Ok s -> K s (x1 ++ x2).
+Proof. exact K_conj. Qed.
+Print Assumptions C10_summaries_compose.
+
+Theorem C10_disjunction_covers : forall a b c n, nvar_disj a b = Ok c -> in_variance n a \/ in_variance n b -> in_variance n c.
+Proof. exact nvar_disj_cover. Qed.
+Print Assumptions C10_disjunction_covers.
+
+(* the premises are satisfiable: {s,t}/**/*.{r,m/d} reports "at least 2" *)
+Example C10_alternation_nonvacuous :
+  let sp := (0%N, 0%N) in
+  let L s := TLeaf sp (LLit false s) in
+  let t := TCat sp [TAlt sp [TCat sp [L [115%N]]; TCat sp [L [116%N]]]; TLeaf sp (LTree true); TLeaf sp (LZom false); L [46%N];
+                    TAlt sp [TCat sp [L [114%N]]; TCat sp [L [109%N]; TLeaf sp LSep; L [100%N]]]] in
+  nonempty_branches t = true /\ rep_free t = true /\ lits_nosep t = true /\ depth_closed_variant t = false /\
+  depth_variance t = Ok (Var (Bounded (BLower 2))).
+Proof. cbv zeta. repeat split; vm_compute; reflexivity. Qed.
